@@ -577,6 +577,10 @@ class World(BaseWorld):
     def clone_handle(self, obj0):
         return clone_handle(self, obj0)
 
+    @property
+    def interner(self):
+        return self.db_for(posixpath.join(self.dir, 'cache.db')).intern
+
     def intern_text(self, s):
         return self.db_for(posixpath.join(self.dir, 'cache.db')).intern.intern(sqlmodel.TEXT, s)
 
